@@ -23,6 +23,7 @@
 #include <signal.h>
 #include <sys/wait.h>
 #include <sys/resource.h>
+#include <sys/time.h>
 #include "givinteger.h"
 #include "gfq.h"
 #include "c05_alias.h"
@@ -267,13 +268,22 @@ template <class T> struct S : public Session {
     }
 };
 
+// per-call CPU watchdog (ITIMER_PROF counts the CPU time of this process only, so it is independent of the machine load): a call that
+// does not come back within its budget ends the process with exit code 99; the check re-runs that one call alone with a larger
+// budget (C05_CALL_CPU) before it reports "does not return"
+static void on_budget(int) { const char m[] = "CPU-BUDGET\n"; ssize_t w = write(2, m, sizeof m - 1); (void)w; _exit(99); }
+static void arm(double s) { struct itimerval it; it.it_interval.tv_sec = 0; it.it_interval.tv_usec = 0; it.it_value.tv_sec = (long)s; it.it_value.tv_usec = (long)((s - (long)s) * 1e6); setitimer(ITIMER_PROF, &it, 0); }
+static double env_d(const char* n, double d) { const char* v = getenv(n); return (v && *v) ? atof(v) : d; }
 int main() {
+    signal(SIGPROF, on_budget);
+    const double call_cpu = env_d("C05_CALL_CPU", 10.0), field_cpu = env_d("C05_FIELD_CPU", 60.0);
     std::string l; Session* cur = 0;
     while (std::getline(std::cin, l)) {
         std::istringstream is(l); std::vector<std::string> t; std::string w;
         while (is >> w) t.push_back(w);
         if (t.empty()) continue;
         std::string out;
+        arm(t[0] == "field" ? field_cpu : call_cpu);
         try {
             if (t[0] == "field") {
                 delete cur; cur = 0;
@@ -282,6 +292,7 @@ int main() {
             } else if (!cur) out = "NO-FIELD";
             else out = cur->line(t);
         } catch (...) { out = "EXCEPTION"; }
+        arm(0);
         std::cout << out << std::endl;      // flushed: a crash or a hang is attributed to the next input line
     }
     std::cout.flush();
